@@ -324,6 +324,33 @@ CLAIMED["C27"] = (
     "DESIGN.md section 6 C27",
 )
 
+CLAIMED["C28"] = (
+    "segments_2d and segments_3d are executed on pairs of segments whose direction vectors are enumerated (explicit "
+    "case split over all integer directions of the box) and whose positions are SYMBOLIC integers: the code's "
+    "tolerance tests fork the paths, and on every path z3 decides for all positions that the result (None / one "
+    "point / two end points, and the coordinates) equals the exact classification written with cross and dot "
+    "products of the integer data (parallel / collinear / touching / overlapping / skew / coplanar crossing), and "
+    "that this classification does not depend on the argument order.",
+    "Integer coordinates in [-2,2]^2 and [-1,1]^3 (quick), [-4,4]^2 and [-2,2]^3 (thorough); directions are "
+    "concrete per case (a fully symbolic encoding is mixed integer/real nonlinear arithmetic, which neither z3 nor "
+    "cvc5 decided within 15 minutes per path - DESIGN.md section 10.2); floats as exact reals.",
+    "symbolic execution of the real Python source over integer terms + SMT (linear integer/real arithmetic), case "
+    "split on directions",
+    "DESIGN.md section 6 C28",
+)
+
+CLAIMED["C33"] = (
+    "line_tessellation (through segments_3d) and match_1d are executed on two tessellations of one segment with "
+    "SYMBOLIC interior nodes and length; node coincidences / orderings are separate paths forked by the code's own "
+    "comparisons. z3 decides for all node positions that overlaps are non-negative, equal the exact overlap "
+    "length of every cell pair, sum to the cell lengths for both tessellations, that 'averaged' rows and "
+    "'integrated' columns of match_1d sum to one and that all weights are non-negative.",
+    "1-3 cells per side; nodes coincide exactly or are >= 1/64 apart (far from the 1e-8 tolerance); segment along "
+    "the x-axis and along (3/5,4/5,0); triangulations / surface_tessellations / match_2d (shapely) are outside.",
+    "symbolic execution of the real Python source over real terms + SMT (nonlinear real arithmetic)",
+    "DESIGN.md section 6 C33",
+)
+
 NOT_APPLICABLE = {
     "C11": "MPFA local systems are inverted in LAPACK/numba kernels on data-dependent block structures; a symbolic inverse of the interaction-region blocks is beyond z3/cvc5 and with concrete matrices nothing quantified remains for a solver.",
     "C13": "MPSA: same obstacle as C11 with 2-3x larger local systems.",
